@@ -160,7 +160,7 @@ def check_coherent(V, m, what, falsify=False):
     V.prove(got['adjacency_symmetric'], 'adjacency stays symmetric', {'edit': what})
 
 
-def h_edit(V, smi, steps=1, falsify=False):
+def h_edit(V, smi, steps=1, falsify=False, small=False):
     import chython
     m = chython.smiles(smi)
     views(m)                        # everything cached
@@ -168,7 +168,7 @@ def h_edit(V, smi, steps=1, falsify=False):
     for s in range(steps):
         before = views(m)
         try:
-            what = apply_edit(V, m, f'e{s}')
+            what = apply_edit_safe(V, m, f'e{s}') if small else apply_edit(V, m, f'e{s}')
         except (KeyError, ValueError, TypeError) as e:       # the library's own argument errors
             # a rejected edit must leave the molecule exactly as it was and usable
             V.prove(views(m) == before, 'a rejected edit leaves the molecule intact', {'done': done, 'error':
@@ -421,7 +421,7 @@ HARNESSES = {'edit': h_edit, 'transaction': h_transaction, 'independent': h_inde
 def finding_key(job, failure):
     k = f"{job['harness']}:{failure['label']}"
     mdl = failure['model']
-    kinds = [EDITS[mdl[x]] for x in ('e0_kind', 'e1_kind') if x in mdl]
+    kinds = [EDITS[mdl[x]] if not job['params'].get('small') else str(mdl[x]) for x in ('e0_kind', 'e1_kind') if x in mdl]
     if kinds:
         k += ':' + '+'.join(kinds)
     for x in ('t0_kind', 't1_kind', 'after_kind', 'what', 'how', 'd0_kind', 'd1_kind'):
@@ -442,8 +442,8 @@ def jobs(tier):
         J.append({'harness': 'coordinates_independent', 'params': {'smi': s}, 'budget_s': 60})
         J.append({'harness': 'deferred_edits', 'params': {'smi': s}, 'budget_s': 300, 'validate_every': 10, 'max_failures': 30})
         J.append({'harness': 'independent', 'params': {'smi': s}, 'budget_s': 1800, 'validate_every': 50, 'weight': 300})
-    for s in (SEEDS_T[:8] if T else ['C1CC1C', 'F/C=C/Cl']):
-        J.append({'harness': 'edit', 'params': {'smi': s, 'steps': 2}, 'budget_s': 3000, 'validate_every': 200,
+    for s in (SEEDS_T[:8] if T else SEEDS_Q):
+        J.append({'harness': 'edit', 'params': {'smi': s, 'steps': 2, 'small': not T}, 'budget_s': 3000, 'validate_every': 200,
                   'max_failures': 40, 'weight': 2000})
     J.append({'harness': 'edit', 'params': {'smi': 'CCO', 'steps': 1, 'falsify': True}, 'twin': True, 'budget_s': 120,
               'max_failures': 1})
